@@ -28,12 +28,17 @@ pub fn gen(args: &Args) {
 }
 
 pub fn evaluate(t: &Tree, prof: &Profile) -> Result<[f64; 6], String> {
+    evaluate_as(t, prof, false)
+}
+
+/// `split`: every several-action infoset of the profile is passed in two separate items
+pub fn evaluate_as(t: &Tree, prof: &Profile, split: bool) -> Result<[f64; 6], String> {
     let t2 = t.clone();
     let prof2 = prof.clone();
     util::catch(move || {
         let game = tree::build(&t2).map_err(|e| format!("from_root: {e:?}"))?;
         let strat = game
-            .from_named(tree::named(&t2, &prof2))
+            .from_named(if split { tree::named_split(&t2, &prof2) } else { tree::named(&t2, &prof2) })
             .map_err(|e| format!("from_named: {e:?}"))?;
         let info = strat.get_info();
         Ok([
@@ -103,7 +108,7 @@ pub fn replay(args: &Args) {
             5 => t.scale_weights(1000),
             _ => t,
         };
-        match evaluate(&t, &prof) {
+        match evaluate_as(&t, &prof, id % 2 == 1) {
             Err(msg) => out.line(&json!({"id": id, "status": "violation",
                 "mismatch": [{"class": "failed", "what": "evaluation failed on a valid game and profile", "observed": msg}]})),
             Ok([u1, u2, g1, g2, gt, _]) => {
